@@ -542,6 +542,13 @@ def need_concrete_str(v):
     return v
 
 
+def m_eq_ignore_ascii_case_concrete(ex, args, callee):
+    a, b = dv(args[0]), dv(args[1])
+    if not (isinstance(a, str) and isinstance(b, str)): raise Unsupported(f'{callee}: string content is not concrete')
+    low = lambda s: ''.join(chr(ord(c) + 32) if 'A' <= c <= 'Z' else c for c in s)
+    return low(a) == low(b)
+
+
 def need_str(f):
     def g(ex, args, callee):
         s = dv(args[0])
@@ -741,6 +748,7 @@ BASE_MODELS = [
     (r' as Try>::branch$', m_try_branch), (r' as FromResidual<.*>>::from_residual$', m_from_residual),
     (r'str>::starts_with::<(char|&str)>$', need_str(lambda s, c: s.startswith(c))), (r'str>::ends_with::<char>$', need_str(lambda s, c: s.endswith(c))),
     (r'str>::find::<char>$', m_find_char), (r'str>::to_uppercase$', need_str(lambda s: s.upper())),
+    (r'str>::eq_ignore_ascii_case$', lambda ex, a, c: m_eq_ignore_ascii_case_concrete(ex, a, c)),
     (r'str>::to_lowercase$', need_str(lambda s: s.lower())),
     (r'(str|String) as Index<', m_str_index),
     (r'<impl str>::is_empty$|String::is_empty$', lambda ex, a, c: str_len(dv(a[0])) == 0),
